@@ -63,6 +63,29 @@ def gen_case(seed, tier, opts=None):
     case = {'v': 1, 'engine': 'chain', 'property': 'C14', 'seed': seed, 'mode': mode, 'L': L, 'form': form,
             'life': round(life, 3), 'stall': stall, 'prestall': prestall, 'exit': g.pick([0, 1, 7]), 't0': t0, 'late': late,
             'exitlag': g.pick([0, 1, 2])}
+    if g.chance(0.15) and (form == 'dtend' or mode == 'due'):
+        # DTSTART/DTEND (or DUE) as local times of a zone with daylight saving; half of them with the span lying
+        # across a switch (last Sunday of March / October, 01:00 UTC)
+        case['tzid'] = g.pick(['Europe/Berlin', 'Europe/London'])
+        import time as _time
+        tm = _time.gmtime(t0)
+        if tm.tm_mon in (3, 10) and tm.tm_mday >= 25 and tm.tm_wday == 6:
+            # a switch day: move on by two days
+            case['t0'] = t0 = t0 + 2 * 86400
+        if g.chance(0.5) and mode != 'due':
+            import calendar as _cal
+            y = g.rint(2027, 2036)
+            # (in October the wall-clock hour before the switch occurs twice; a stamp in it is ambiguous and
+            # iCalendar leaves open which one is meant: both ends of the span must lie outside those two hours)
+            mo = g.pick([3, 10]) if L > 7300 else 3
+            last_sun = max(d for d in range(25, 32) if _cal.weekday(y, mo, d) == 6)
+            sw = _cal.timegm((y, mo, last_sun, 1, 0, 0, 0, 0, 0))
+            # the run starts at t0 + 7 (chain) resp. t0 (direct)
+            if mo == 3:
+                case['t0'] = sw - 7 - g.rint(1, max(1, min(L - 1, 3000))) if L > 1 else sw - 8
+            else:
+                case['t0'] = sw - 3600 - 7 - g.rint(1, min(L - 7250, 3000))
+            case['across_dst'] = 1
     if mode == 'due':
         case['due_rel'] = g.pick([-100, -1, 0, 1, 2, 30, 3600])      # DUE relative to the executor's start
         case['life'] = round(g.pick([0.5, max(0.0, case['due_rel'] - 2.0), case['due_rel'] + 2.0, case['due_rel'] * 3 + 5]), 3)
@@ -76,6 +99,8 @@ def user_plan(case):
     sp = {'uid': 'd1@sim', 'cmd': 'long job', 'start': start,
           'rules': [{'freq': 'MINUTELY', 'interval': 30, 'count': 2}],
           'organizer': 'ops@example.com', 'attendees': ['a@x.org'], 'mailrun': '1'}
+    if case.get('tzid'):
+        sp['tzid'] = case['tzid']
     if case['form'] == 'dtend':
         sp['dtend'] = start + case['L']
     else:
@@ -124,7 +149,10 @@ def run_chain(case):
         info['vtodo'] = vt
     else:
         due = case['t0'] + case['due_rel']
-        vt = direct_vtodo(case, 'DUE:' + ical.ts2ical(due))
+        if case.get('tzid'):
+            vt = direct_vtodo(case, 'DUE;TZID=%s:%s' % (case['tzid'], ical.ts2local(due, case['tzid'])))
+        else:
+            vt = direct_vtodo(case, 'DUE:' + ical.ts2ical(due))
         xcase = executor_case(case, vt, case['t0'], ['-v'])
         info['vtodo'] = vt
     hist, files, journal, log, rc = c13.execute(xcase)
@@ -222,6 +250,10 @@ def run_seed(seed, tier, opts=None):
         probes['job_within_limit'] = 1
     if case['stall']:
         probes['stall_between_alarm_and_spawn'] = 1
+    if case.get('tzid'):
+        probes['limit_as_local_time_with_tzid'] = 1
+    if case.get('across_dst'):
+        probes['span_across_a_dst_switch'] = 1
     if case.get('prestall'):
         probes['held_up_before_spawn'] = 1
         if case['prestall'] >= case['L'] and case['mode'] != 'due':
